@@ -300,6 +300,14 @@ def run(ctx):
              'an activation that starts with a stored terminal error completes only with Err', [dpoll.loc(dpoll.d)], 'other completions: %s' % rets)
     else:
         R.ob('C09.terminal', ('client dispatch poll', 'no transport operation once a terminal error is stored'), False, 'the dispatch stores its terminal error in an Option cell', [dpoll.loc(dpoll.d)])
+    # end-of-stream at any point: once the peer ended the read side the dispatch ends (outstanding calls then fail with Shutdown instead of hanging
+    # until their deadlines, later calls fail fast) — same exploration as C10.done
+    from .C10 import DoneAut
+    d_ = run_jobs(F, [{'key': 'done', 'entry': dpoll.id, 'aut': ('custom', DoneAut), 'acc': acc, 'cells': cells}])['done']
+    pend_after_eof = [e[0] for (ret, e, lab) in d_['exits'] if ret == 'Pending' and e[0][0] == 'Closed' and not any(isinstance(v, tuple) and v and v[0] == 'Some' for _, v in e[1])]
+    R.ob('C09.eof', ('client dispatch poll', 'end-of-stream ends the dispatch'), not pend_after_eof,
+         'once the transport read returned Ready(None) the dispatch does not go back to waiting: calls outstanding at end-of-stream resolve with a connection/shutdown error, none hangs',
+         [dpoll.loc(dpoll.d)], 'Pending exits after the read side ended: %s' % sorted(set(pend_after_eof), key=repr)[:4])
     for key, entry, name in [('client', dpoll, 'client dispatch poll')] + [(chain_name(ch), rp, 'Requests<%s>::poll_next' % chain_name(ch)) for ch in chains]:
         r = res[key]
         R.count('states_explored', r['stats'].get('states', 0))
